@@ -362,7 +362,7 @@ pub fn c13(s: &mut Session) -> Meta {
   let t = s.tier();
   let max_blocks = t.pick(10, 24);
   s.run_part(
-    Part::new("crash-points", t.pick(320, 6_000), move || case_strategy(max_blocks), c13_check)
+    Part::new("crash-points", t.pick(320, 3_000), move || case_strategy(max_blocks), c13_check)
       .shrink_iters(60)
       .timeout(400),
   );
